@@ -21,6 +21,26 @@ func ResetWatchCache() {
 '''},
         'trimpath': False,
     },
+    'watch': {
+        'pkg': 'zzverif/worlds/watch',
+        'rewrite': [('cmd/templ/generatecmd', 'sync,os'), ('parser/v2', 'os')],
+        'needs_templ': True,
+        'prep_hook': 'watch_corpus',
+        'extra_dirs': ['watchgen'],
+        'trimpath': False,
+        'export_files': {'runtime/zz_verif_export.go': '''package runtime
+
+// SetDevelopmentMode switches development-mode rendering (normally fixed at start-up from TEMPL_DEV_MODE).
+func SetDevelopmentMode(b bool) { developmentMode = b }
+
+// ResetWatchCache empties the development-mode literal cache (what a process restart does).
+func ResetWatchCache() {
+	watchStateMutex.Lock()
+	watchModeCache = map[string]watchState{}
+	watchStateMutex.Unlock()
+}
+'''},
+    },
     'gen': {
         'pkg': 'zzverif/worlds/gen',
         'rewrite': [('cmd/templ/generatecmd', 'sync,os'), ('cmd/templ/generatecmd/watcher', 'sync,os'), ('parser/v2', 'os')],
@@ -167,6 +187,27 @@ PROPS = {
         'stubbed': ['os.* of the command (simos: park + fault layer over a real temporary directory)', 'sync.Mutex (channel mutex)', 'fsnotify and watch mode are not run'],
         'assumptions': ['faults are not injected on Stat (a failed stat is read as "not modified") nor on Remove of an orphan', 'with Lazy, pre-existing newer _templ.go files are only ever correct ones',
                         'the sandbox file system is trusted for content, not for timing (mtimes are set explicitly)', 'tasks the simulator cannot tell apart (same path, same call) are released together'],
+    },
+    'C16': {
+        'world': 'watch',
+        'level': 'exploration',
+        'builds': {'default': {}},
+        'tiers': {
+            'quick': {'runs': 6000, 'families': 40, 'params': {'max_actions': 40}, 'per_run_timeout': 5.0},
+            'thorough': {'runs': 200000, 'families': 250, 'params': {'max_actions': 120}, 'per_run_timeout': 10.0, 'shrink_budget_s': 300},
+        },
+        'rule': 'prep draws (from VERIF_SEED) N families of template variants v0->..->vk (k<=5) by the edit operators of the statement (static text edits incl. quotes, backslashes, '
+                'newlines, non-ASCII and control bytes; attribute renames among title/data-*/class/style/id/alt and to href; moving an expression between text, attribute, script, '
+                'script-string and comment positions; reorder / insert / delete of nodes; Go expression changes), generates every variant with the working tree generator and '
+                'compiles all of them into the world. One run = one family and a tape-driven history of edit / watch (real FSEventHandler) / advance fake clock / render / restart app / '
+                'restart watcher / unparseable edit; whenever the handler has seen the latest edit and the TTL has passed, dev-mode output of the compiled variant must equal the normal '
+                'output of the edited variant for six argument sets. distinct = event-log hash; non-trivial = at least one edit',
+        'real': ['FSEventHandler.HandleEvent/generate (text file writing, hash suppression, GoUpdated/TextUpdated)', 'generator.HasChanged', 'runtime.WriteString development-mode path with its mtime/TTL cache',
+                 'generated code of every variant (working tree generator)', 'parser'],
+        'stubbed': ['clock (synctest fake clock)', 'the source file (simos overlay: content + mtime from the fake clock)', 'the editor', 'rebuild+restart of the app and restart of the watcher (model)',
+                    'fsnotify, the 100 ms coalescing in watcher.loop and the post-generation debounce in cmd.go are not run'],
+        'assumptions': ['two saves never share an mtime tick (the model advances the fake clock by 1 ms before every write)', 'renders inside the 100 ms TTL window are only required to equal some variant the text file has held since the build',
+                        'a restarted watcher handles every file once and the program is rebuilt, as the initial walk of templ generate --watch does'],
     },
     'C17': {
         'world': 'lsp',
